@@ -15,10 +15,17 @@ Conventions (see HOWTO):
 * `u32::MAX` is `umax`; `Vec<T>` is `List T`; `v[i]` that can panic is an explicit `Option`/`TopoRes.panic`
   branch (`none` = the Rust code panics);
 * `HashMap`/`HashSet` are association lists; every place where the code iterates over a hash map
-  (twin matching) is independent of the iteration order because the keys are pairwise distinct;
+  (twin matching) is independent of the iteration order because the keys are pairwise distinct.
+  The vertex map of `merge_duplicate_vertices` is keyed by `HashablePartialEq<Point>`: hash of the coordinate
+  *bytes*, equality `==`.  The model compares with `veq` (`==`) only, which is the same thing except for `-0.0`
+  versus `0.0` (equal, different bytes) and `NaN`; such coordinates are outside the explored domain;
+* the per-slot accumulations of `compute_pseudo_normals` are written slot by slot (`vertexAcc`, `edgeAcc`): the
+  additions into one slot are performed in the program's order, so the floating-point result is bit-identical;
 * the `ena` union–find is abstracted to the connectivity closure (`unite3`: the three `union` calls of
   one triangle merge the classes of its three vertices; class identifier = smallest vertex id of the class);
   the code only uses the representative as an opaque class identifier (`vertex_to_range[group_index]`);
+* the QBVH is represented by the coordinates of the triangles `rebuild_qbvh` last ran on (`Mesh.qbvh`);
+  `Qbvh::clear_and_rebuild` is a function of the list of leaf boxes;
 * `dim3 : Bool` selects the `cfg(feature = "dim3")` blocks.
 
 Two versions of the mutating operations are given:
@@ -603,6 +610,18 @@ def reverse [Geo V N] (dim3 : Bool) (s : Mesh V N) : Option (Mesh V N) :=
   let s := if dim3 then { s with pn := s.pn.map (negPN (V := V) · true) } else s
   retopo s
 
+/-- image of the pseudo-normals under a map of the normals -/
+def mapPN (fN : N → N) (p : PN N) : PN N :=
+  { vertices := p.vertices.map fN, edges := p.edges.map fun e => (fN e.1, fN e.2.1, fN e.2.2) }
+
+/-- `transform_vertices(transform)`: `fV` is `transform * point`, `fN` is `transform * vector` (the rotation).
+Vertices are moved, the QBVH is rebuilt, the pseudo-normals are rotated in place; topology and connected
+components are kept. -/
+def transformVertices (fV : V → V) (fN : N → N) (s : Mesh V N) : Option (Mesh V N) :=
+  match rebuildQbvh { s with vertices := s.vertices.map fV } with
+  | none => none
+  | some s => some { s with pn := s.pn.map (mapPN fN) }
+
 /-- buffers of `append` before the rebuild -/
 def appendBuffers (s rhs : Mesh V N) : List V × List Tri :=
   let base := s.vertices.length
@@ -640,16 +659,19 @@ inductive Op (V N : Type) where
   | setFlags (f : Flags)
   | reverse
   | append (rhs : Mesh V N)
+  | transform (fV : V → V) (fN : N → N)
 
 def step [Geo V N] (dim3 : Bool) (s : Mesh V N) : Op V N → Option (Mesh V N)
   | .setFlags f => (setFlags dim3 s f).map (·.1)
   | .reverse => reverse dim3 s
   | .append rhs => append dim3 s rhs
+  | .transform fV fN => transformVertices fV fN s
 
 def stepW [Geo V N] (dim3 : Bool) (s : Mesh V N) : Op V N → Option (Mesh V N)
   | .setFlags f => (setFlagsW dim3 s f).map (·.1)
   | .reverse => reverseW dim3 s
   | .append rhs => appendW dim3 s rhs
+  | .transform fV fN => transformVertices fV fN s
 
 end TM
 end Model
